@@ -404,7 +404,7 @@ func run(repo string) (string, error) {
 	}
 	s += "/-- imports of dosnode/dos_stages.go -/\n" + leanList("stagesImports", imps)
 
-	fns := []string{"dataParse", "dataFetch", "genQueryResult", "genSysRandom", "genUserRandom", "choseSubmitter", "padOrTrim", "genSign", "dispatchSign", "recoverSign", "drainSigns", "reportQueryResult"}
+	fns := []string{"dataParse", "jsonDepthExceeds", "xmlDepthExceeds", "dataFetch", "genQueryResult", "genSysRandom", "genUserRandom", "choseSubmitter", "padOrTrim", "genSign", "dispatchSign", "recoverSign", "drainSigns", "reportQueryResult"}
 	decl := map[string]*ast.FuncDecl{}
 	for _, n := range fns {
 		fd := ex.FuncDecl(st, "", n)
@@ -420,7 +420,7 @@ func run(repo string) (string, error) {
 
 	// what the content functions read besides their arguments
 	var forb, clk, rng []string
-	for _, n := range []string{"dataParse", "dataFetch", "genQueryResult", "genSysRandom", "genUserRandom", "choseSubmitter", "padOrTrim"} {
+	for _, n := range []string{"dataParse", "jsonDepthExceeds", "xmlDepthExceeds", "dataFetch", "genQueryResult", "genSysRandom", "genUserRandom", "choseSubmitter", "padOrTrim"} {
 		f, c, r := impure(fset, decl[n])
 		forb, clk, rng = append(forb, f...), append(clk, c...), append(rng, r...)
 	}
@@ -451,6 +451,10 @@ func run(repo string) (string, error) {
 		return "", fmt.Errorf("constant maxDocumentSize not found in dosnode/dos_stages.go")
 	}
 	s += fmt.Sprintf("def maxDocumentSize : Nat := %s\n", c["maxDocumentSize"])
+	if c["maxDocumentDepth"] == nil {
+		return "", fmt.Errorf("constant maxDocumentDepth not found in dosnode/dos_stages.go")
+	}
+	s += fmt.Sprintf("/-- the nesting bound of dataParse (/repo 14409e8) -/\ndef maxDocumentDepth : Nat := %s\n", c["maxDocumentDepth"])
 	var lim []string
 	ast.Inspect(decl["dataFetch"].Body, func(n ast.Node) bool {
 		if ce, ok := n.(*ast.CallExpr); ok && src(fset, ce.Fun) == "io.LimitReader" && len(ce.Args) == 2 {
